@@ -1,7 +1,7 @@
 (* Model of rust/lance-core/src/utils/mask.rs: RowIdTreeMap (a BTreeMap<u32, Full | Partial(RoaringBitmap)>)
    and RowIdMask (allow list / block list).  Executable definitions only (+ the chk_* correspondence
-   checkers at the end).  Transcribed from the tree as it is AFTER the repairs 0357916 (Not / BitOr) and
-   e79147a (insert_range).
+   checkers at the end).  Transcribed from the tree as it is AFTER the repairs 0357916 (Not / BitOr),
+   e79147a (insert_range) and 7f76aa9 (SubAssign drops a fragment entry that became empty).
 
    Representation choices (the only non-literal parts):
    * RoaringBitmap (external crate) = a finite set of u32.  It is represented either by the strictly
@@ -273,7 +273,8 @@ Definition sub_step (acc : treemap) (e : N * sel) : treemap :=
   | Some Full =>
     match rs with
     | Full => adel f acc
-    | Partial rb => aput f (Partial (bm_diff bm_full rb)) acc
+    | Partial rb => let b' := bm_diff bm_full rb in
+                    if bm_is_empty b' then adel f acc else aput f (Partial b') acc
     end
   | Some (Partial lb) =>
     match rs with
